@@ -81,9 +81,9 @@ impl Tif {
 #[derive(Clone, Copy, Debug, PartialEq, Eq, Hash, Serialize, Deserialize)]
 pub enum IdSpec {
     /// `OrderId::Uuid` from the 128-bit value
-    Uuid(u128),
+    Uuid(#[serde(with = "u128_hex")] u128),
     /// `OrderId::Ulid` from the 128-bit value
-    Ulid(u128),
+    Ulid(#[serde(with = "u128_hex")] u128),
     /// `OrderId::from_u64`
     FromU64(u64),
 }
@@ -301,5 +301,18 @@ pub fn brief(o: &OrderType<()>) -> String {
             o.visible_quantity(),
             o.timestamp()
         ),
+    }
+}
+
+/// serde for u128 as a hex string (serde_json::Value cannot hold 128-bit numbers)
+pub mod u128_hex {
+    use serde::{Deserialize, Deserializer, Serializer};
+    pub fn serialize<S: Serializer>(v: &u128, s: S) -> Result<S::Ok, S::Error> {
+        s.serialize_str(&format!("{:#x}", v))
+    }
+    pub fn deserialize<'de, D: Deserializer<'de>>(d: D) -> Result<u128, D::Error> {
+        let t = String::deserialize(d)?;
+        let t = t.trim_start_matches("0x");
+        u128::from_str_radix(t, 16).map_err(serde::de::Error::custom)
     }
 }
